@@ -309,6 +309,12 @@ class Export(object):
                     + f"event count to {l_min} (max {l_max}) in '{l_min}'.",
                     LimitingExportSizeWarning)
 
+        if filter_arr is not None:
+            # The event count is corrected by the writer whenever feature
+            # data are written. Set it here for the case that there is
+            # nothing to write (e.g. empty selection).
+            meta["experiment"]["event count"] = int(np.sum(filter_arr))
+
         # Perform actual export
         with RTDCWriter(path,
                         mode="append",
